@@ -1,1 +1,496 @@
-fn main(){}
+//! C14: a genuine downstream crate (public API of meshless_voronoi with default features, no hooks) that defines its own
+//! cell and face integrals. The integrals ARE the monitors: they record what the library feeds them.
+//!
+//! usage: vcustom C14 [--tier quick|thorough] [--seed N] [--verif-dir DIR] [--out-dir DIR] [--replay FILE]
+
+use glam::DVec3;
+use meshless_voronoi::integrals::{AreaIntegral, CellIntegral, FaceIntegral};
+use meshless_voronoi::{ConvexCell, ConvexCellMarker, Dimensionality, VoronoiIntegrator, WithoutFaces};
+use serde_json::json;
+use std::collections::BTreeMap;
+use std::path::PathBuf;
+use std::sync::atomic::{AtomicU64, Ordering};
+use std::sync::Mutex;
+use vcore::case::{gen_case, gen_mask, Case, GenOpts};
+use vcore::refcell::{Key, RefSetup};
+use vcore::report::{KnownFindings, Report, Violation};
+use vcore::rng::Rng;
+
+const U: f64 = 1.1102230246251565e-16;
+const K: f64 = 64.;
+
+// ------------------------------------------------------------------------------------------------
+// the custom integrals
+
+/// Moments of degree <= 2 accumulated from the signed tetrahedra (generator = apex).
+#[derive(Clone, Default)]
+struct Moments {
+    /// 1, x, y, z, xx, yy, zz, xy, xz, yz
+    m: [f64; 10],
+    tets: usize,
+    abs_volume: f64,
+}
+
+fn tet_moments(p: [DVec3; 4]) -> [f64; 10] {
+    // documented convention: counter-clockwise base (v0, v1, v2) as seen from the apex contributes positively;
+    // that is the sign of det[v1 - v0, v2 - v0, apex - v0]
+    let vol = (p[1] - p[0]).dot((p[2] - p[0]).cross(p[3] - p[0])) / 6.;
+    let s = p[0] + p[1] + p[2] + p[3];
+    let mut m = [0.; 10];
+    m[0] = vol;
+    m[1] = vol * s.x / 4.;
+    m[2] = vol * s.y / 4.;
+    m[3] = vol * s.z / 4.;
+    let idx = [(0, 0), (1, 1), (2, 2), (0, 1), (0, 2), (1, 2)];
+    for (q, (a, b)) in idx.iter().enumerate() {
+        let mut sq = 0.;
+        for v in &p {
+            sq += v[*a] * v[*b];
+        }
+        m[4 + q] = vol / 20. * (sq + s[*a] * s[*b]);
+    }
+    m
+}
+
+impl CellIntegral for Moments {
+    fn init<M: ConvexCellMarker>(_cell: &ConvexCell<M>) -> Self {
+        Moments::default()
+    }
+    fn collect(&mut self, v0: DVec3, v1: DVec3, v2: DVec3, gen: DVec3) {
+        let t = tet_moments([v0, v1, v2, gen]);
+        for k in 0..10 {
+            self.m[k] += t[k];
+        }
+        self.tets += 1;
+        self.abs_volume += t[0].abs();
+    }
+    fn finalize(self) -> Self {
+        self
+    }
+}
+
+/// Face monitor: plane residual of every base triangle, signed areas by the documented convention.
+#[derive(Clone, Default)]
+struct FaceMon {
+    n: DVec3,
+    p: DVec3,
+    gen_on_plane: bool,
+    max_residual: f64,
+    signed_area: f64,
+    abs_area: f64,
+    /// area of the triangles whose orientation as seen from the generator is undecidable in f64
+    ambiguous_area: f64,
+    tris: usize,
+    cell_idx: usize,
+}
+
+impl FaceIntegral for FaceMon {
+    fn init<M: ConvexCellMarker>(cell: &ConvexCell<M>, clipping_plane_idx: usize) -> Self {
+        let pl = &cell.clipping_planes[clipping_plane_idx].plane;
+        FaceMon {
+            n: pl.n,
+            p: pl.p,
+            gen_on_plane: pl.n.dot(cell.loc - pl.p) == 0.,
+            cell_idx: cell.idx,
+            ..Default::default()
+        }
+    }
+    fn collect(&mut self, v0: DVec3, v1: DVec3, v2: DVec3, gen: DVec3) {
+        for v in [v0, v1, v2] {
+            self.max_residual = self.max_residual.max(self.n.dot(v - self.p).abs());
+        }
+        let nt = 0.5 * (v1 - v0).cross(v2 - v0);
+        let side = nt.dot(gen - v0);
+        let a = nt.length();
+        self.signed_area += if side < 0. { -a } else { a };
+        self.abs_area += a;
+        if side.abs() <= 64. * U * 2. * a * (gen - v0).length() {
+            self.ambiguous_area += a;
+        }
+        self.tris += 1;
+    }
+    fn finalize(self) -> Self {
+        self
+    }
+}
+
+// ------------------------------------------------------------------------------------------------
+// tolerance model (DESIGN 5.3) from the public fields of a cell
+
+struct Scales {
+    m: f64,
+    l: f64,
+    vbox: f64,
+    ascale: f64,
+    athr: f64,
+    dim: usize,
+}
+
+fn scales(c: &Case) -> Scales {
+    let (a, w) = c.norm_box();
+    let (mut lo, mut hi) = (a, a + w);
+    if c.periodic {
+        for k in 0..c.dim {
+            lo[k] -= w[k];
+            hi[k] += w[k];
+        }
+    }
+    let l = c.lmax();
+    let ascale = if c.dim == 1 { 1. } else { l.powi(c.dim as i32 - 1) };
+    Scales {
+        m: lo.abs().max(hi.abs()).max_element().max(l),
+        l,
+        vbox: c.box_measure(),
+        ascale,
+        athr: 1e-9 * ascale,
+        dim: c.dim,
+    }
+}
+
+struct Tol {
+    max_dv: f64,
+    tol_v: f64,
+    tol_a: f64,
+    ill: bool,
+}
+
+fn cell_tol(cell: &ConvexCell<WithoutFaces>, s: &Scales) -> Tol {
+    let mut delta = 0.;
+    let mut max_dv: f64 = 0.;
+    let mut rmax: f64 = 0.;
+    for v in &cell.vertices {
+        let d = v.dual;
+        let det = cell.clipping_planes[d[0]].plane.n.dot(cell.clipping_planes[d[1]].plane.n.cross(cell.clipping_planes[d[2]].plane.n)).abs();
+        let dv = K * U * s.m / det.max(1e-300);
+        delta += dv;
+        max_dv = max_dv.max(dv);
+        rmax = rmax.max(v.loc.distance(cell.loc));
+    }
+    let pi = std::f64::consts::PI;
+    let surf = match s.dim {
+        3 => 4. * pi * rmax * rmax,
+        2 => 2. * (2. * pi * rmax) + 2. * pi * rmax * rmax,
+        _ => 2. + 8. * rmax,
+    };
+    let rel = K * U * (1. + s.m / s.l);
+    let perim = match s.dim {
+        3 => 2. * pi * rmax,
+        2 => 2. + 4. * rmax,
+        _ => 4.,
+    };
+    Tol {
+        max_dv,
+        tol_v: delta * surf + rel * s.vbox,
+        tol_a: delta * perim + rel * s.ascale,
+        ill: !(delta <= 1e-8 * s.l),
+    }
+}
+
+fn shift_key(shift: Option<DVec3>, w: DVec3) -> [i8; 3] {
+    let s = shift.unwrap_or(DVec3::ZERO);
+    let mut k = [0i8; 3];
+    for a in 0..3 {
+        k[a] = if s[a] == 0. {
+            0
+        } else if s[a] == w[a] {
+            1
+        } else if s[a] == -w[a] {
+            -1
+        } else {
+            99
+        };
+    }
+    k
+}
+
+fn wall_of(n_in: DVec3) -> Option<u8> {
+    // clipping plane normals point inwards
+    let t = [(DVec3::X, 0u8), (DVec3::NEG_X, 1), (DVec3::Y, 2), (DVec3::NEG_Y, 3), (DVec3::Z, 4), (DVec3::NEG_Z, 5)];
+    t.iter().find(|(d, _)| *d == n_in).map(|x| x.1)
+}
+
+// ------------------------------------------------------------------------------------------------
+
+fn dimn(d: usize) -> Dimensionality {
+    match d {
+        1 => Dimensionality::OneD,
+        2 => Dimensionality::TwoD,
+        _ => Dimensionality::ThreeD,
+    }
+}
+
+fn one_c14(prop: &str, c: &Case, rep: &mut Report) {
+    let built = std::panic::catch_unwind(|| {
+        let vi = VoronoiIntegrator::build(&c.pts, c.mask.as_deref(), c.anchor, c.width, dimn(c.dim), c.periodic);
+        let mom: Vec<Moments> = vi.compute_cell_integrals();
+        let faces = vi.compute_face_integrals::<FaceMon>();
+        let lib_areas = vi.compute_face_integrals::<AreaIntegral>();
+        (vi, mom, faces, lib_areas)
+    });
+    let Ok((vi, mom, faces, lib_areas)) = built else {
+        rep.violations.push(Violation::new(prop, "totality.panic", "the library panicked while building / integrating (message on stderr)".into(), Some(c), json!({})));
+        rep.evaluations += 1;
+        return;
+    };
+    let s = scales(c);
+    let (_, w) = c.norm_box();
+    let n = c.n();
+    let setup = RefSetup::new(c);
+    let active: Vec<usize> = (0..n).filter(|&i| c.mask.as_ref().map_or(true, |m| m[i])).collect();
+    if mom.len() != active.len() {
+        rep.violations.push(Violation::new(prop, "c14.cell_integral_count", format!("{} custom cell integrals for {} constructed cells", mom.len(), active.len()), Some(c), json!({})));
+        rep.evaluations += 1;
+        return;
+    }
+    let mut tols: BTreeMap<usize, Tol> = BTreeMap::new();
+    // ---- (b) signed decomposition: moments of degree <= 2 against the reference polytope
+    let mut wf_moments: Option<Vec<Moments>> = None;
+    if c.dim == 3 {
+        let v2 = vi.clone();
+        if let Ok(x) = std::panic::catch_unwind(move || {
+            let vf = v2.with_faces();
+            let m: Vec<Moments> = vf.compute_cell_integrals();
+            let f = vf.compute_face_integrals::<FaceMon>();
+            let a = vf.compute_face_integrals::<AreaIntegral>();
+            (m, f, a)
+        }) {
+            wf_moments = Some(x.0);
+            // faces of the with-faces route are checked below together with the plain route
+            check_faces(prop, "with_faces", c, &vi, &x.1, None, &setup, &s, w, rep);
+            // the built-in AreaIntegral with and without stored faces
+            let mut plain: BTreeMap<(usize, Option<usize>, [i8; 3], u8), f64> = BTreeMap::new();
+            for (f, fmon) in lib_areas.iter().zip(faces.iter()) {
+                let wall = if f.right().is_none() { wall_of(fmon.integral().n).unwrap_or(200) } else { 0 };
+                *plain.entry((f.left(), f.right(), shift_key(f.shift(), w), wall)).or_insert(0.) += f.integral().area;
+            }
+            for (f, fmon) in x.2.iter().zip(x.1.iter()) {
+                let wall = if f.right().is_none() { wall_of(fmon.integral().n).unwrap_or(200) } else { 0 };
+                let key = (f.left(), f.right(), shift_key(f.shift(), w), wall);
+                let Some(cell) = vi.get_cell_at(f.left()) else { continue };
+                let t = cell_tol(cell, &s);
+                if t.ill {
+                    continue;
+                }
+                let a0 = plain.get(&key).copied().unwrap_or(0.);
+                let a1 = f.integral().area;
+                rep.count("area_integrals_with_vs_without_faces", 1);
+                if !((a0 - a1).abs() <= 2. * t.tol_a) && a0.abs().max(a1.abs()) > s.athr {
+                    let mon = if fmon.integral().gen_on_plane { "c14.face_area_generator_on_plane" } else { "c14.area_with_vs_without_faces" };
+                    rep.violations.push(Violation::new(prop, mon, format!("cell {}, face towards {:?}: AreaIntegral = {a1:e} with stored faces and {a0:e} without{}", f.left(), f.right(), if fmon.integral().gen_on_plane { " (the generator lies exactly in the plane of this wall face)" } else { "" }), Some(c), json!({"cell": f.left(), "right": f.right()})));
+                }
+            }
+        } else {
+            rep.violations.push(Violation::new(prop, "totality.panic", "with_faces() / integration of the with-faces cells panicked".into(), Some(c), json!({})));
+        }
+    }
+    for (k, &i) in active.iter().enumerate() {
+        let cell = vi.get_cell_at(i).expect("active cell");
+        let t = cell_tol(cell, &s);
+        let rs = setup.summary(i);
+        rep.count("cells_checked", 1);
+        rep.count("tetrahedra_received", mom[k].tets as u64);
+        if !t.ill {
+            let mm = s.m.max(s.l) * 2.;
+            let want = [rs.volume, rs.moment.x, rs.moment.y, rs.moment.z, rs.moment2[0], rs.moment2[1], rs.moment2[2], rs.moment2[3], rs.moment2[4], rs.moment2[5]];
+            let names = ["1", "x", "y", "z", "xx", "yy", "zz", "xy", "xz", "yz"];
+            for q in 0..10 {
+                let deg = if q == 0 { 0 } else if q < 4 { 1 } else { 2 };
+                let tol = t.tol_v * mm.powi(deg);
+                let d = (mom[k].m[q] - want[q]).abs();
+                rep.max(&format!("c14.moment_deg{deg}_err_over_tol"), d / tol);
+                if !(d <= tol) {
+                    rep.violations.push(Violation::new(prop, "c14.moment", format!("cell {i}: signed sum over the {} tetrahedra of the integral of {} = {:e}, integral over the reference cell = {:e} (tol {tol:e})", mom[k].tets, names[q], mom[k].m[q], want[q]), Some(c), json!({"cell": i, "monomial": names[q]})));
+                    break;
+                }
+            }
+            // (e) with and without stored faces
+            if let Some(wm) = &wf_moments {
+                rep.count("cells_with_vs_without_faces", 1);
+                for q in 0..10 {
+                    let deg = if q == 0 { 0 } else if q < 4 { 1 } else { 2 };
+                    let tol = 2. * t.tol_v * mm.powi(deg);
+                    if !((wm[k].m[q] - mom[k].m[q]).abs() <= tol) {
+                        rep.violations.push(Violation::new(prop, "c14.with_vs_without_faces", format!("cell {i}: integral of {} is {:e} with stored faces and {:e} without (tol {tol:e})", names[q], wm[k].m[q], mom[k].m[q]), Some(c), json!({"cell": i, "monomial": names[q]})));
+                        break;
+                    }
+                }
+            }
+        } else {
+            rep.count("cells_ill_conditioned_metric_skipped", 1);
+        }
+        tols.insert(i, t);
+    }
+    // ---- (c) base triangles of the face integrals
+    check_faces(prop, "without_faces", c, &vi, &faces, Some(&lib_areas), &setup, &s, w, rep);
+    rep.evaluations += 1;
+    if !active.is_empty() {
+        rep.nontrivial.insert(c.hash());
+    }
+    rep.sample(c.summary());
+}
+
+#[allow(clippy::too_many_arguments)]
+fn check_faces(
+    prop: &str,
+    route: &str,
+    c: &Case,
+    vi: &VoronoiIntegrator<WithoutFaces>,
+    faces: &[meshless_voronoi::integrals::FaceIntegrator<FaceMon>],
+    lib_areas: Option<&[meshless_voronoi::integrals::FaceIntegrator<AreaIntegral>]>,
+    setup: &RefSetup,
+    s: &Scales,
+    w: DVec3,
+    rep: &mut Report,
+) {
+    if let Some(la) = lib_areas {
+        if la.len() != faces.len() {
+            rep.violations.push(Violation::new(prop, "c14.face_integral_count", format!("{} custom face integrals but {} AreaIntegrals", faces.len(), la.len()), Some(c), json!({})));
+            return;
+        }
+    }
+    let mut refs: BTreeMap<usize, vcore::refcell::RSummary> = BTreeMap::new();
+    for (k, f) in faces.iter().enumerate() {
+        let i = f.left();
+        let fm = f.integral();
+        let Some(cell) = vi.get_cell_at(i) else {
+            rep.violations.push(Violation::new(prop, "c14.face_of_unconstructed_cell", format!("{route}: a face integral is reported for the unconstructed cell {i}"), Some(c), json!({"cell": i})));
+            continue;
+        };
+        if fm.cell_idx != i {
+            rep.violations.push(Violation::new(prop, "c14.face_init_cell", format!("{route}: face integral #{k} was initialised with cell {} but is reported with left = {i}", fm.cell_idx), Some(c), json!({"cell": i})));
+        }
+        let t = cell_tol(cell, s);
+        rep.count("faces_checked", 1);
+        rep.count("base_triangles_received", fm.tris as u64);
+        // base triangles lie in the plane of their face
+        let tolp = 4. * t.max_dv + K * U * s.m;
+        rep.max("c14.plane_residual_over_tol", fm.max_residual / tolp);
+        if !(fm.max_residual <= tolp) && !t.ill {
+            rep.violations.push(Violation::new(prop, "c14.triangle_off_plane", format!("{route}: cell {i}, face towards {:?}: a base triangle vertex is {:e} off the face's plane (tol {tolp:e})", f.right(), fm.max_residual), Some(c), json!({"cell": i, "right": f.right()})));
+        }
+        // the same triangles through the library's own AreaIntegral
+        if let Some(la) = lib_areas {
+            let a = la[k].integral().area;
+            if !((a - fm.signed_area).abs() <= 64. * U * fm.abs_area + 2. * fm.ambiguous_area + f64::MIN_POSITIVE) && !fm.gen_on_plane {
+                rep.violations.push(Violation::new(prop, "c14.area_integral_mismatch", format!("{route}: cell {i}, face towards {:?}: AreaIntegral = {a:e} but the signed areas of the same triangles (documented convention) sum to {:e}", f.right(), fm.signed_area), Some(c), json!({"cell": i, "right": f.right()})));
+            }
+        }
+        // signed areas sum to the face area of the reference polytope
+        if t.ill {
+            continue;
+        }
+        let key = match f.right() {
+            Some(j) => Key::Gen(j, shift_key(f.shift(), w)),
+            None => Key::Wall(wall_of(fm.n).unwrap_or(200)),
+        };
+        let rs = refs.entry(i).or_insert_with(|| setup.summary(i));
+        let want = rs.faces.get(&key).map_or(0., |x| x.area);
+        let d = (fm.signed_area - want).abs();
+        rep.max("c14.face_area_err_over_tol", if fm.gen_on_plane { 0. } else { d / t.tol_a });
+        if !(d <= t.tol_a) && fm.signed_area.abs().max(want) > s.athr {
+            if fm.gen_on_plane {
+                rep.violations.push(Violation::new(prop, "c14.face_area_generator_on_plane", format!("{route}: cell {i}: the generator lies exactly in the plane of wall face {key:?}; signed areas sum to {:e}, reference area {want:e}", fm.signed_area), Some(c), json!({"cell": i, "route": route})));
+            } else {
+                rep.violations.push(Violation::new(prop, "c14.face_area", format!("{route}: cell {i}, face {key:?}: signed areas of the {} base triangles sum to {:e}, area of the reference face {want:e} (tol {:e})", fm.tris, fm.signed_area, t.tol_a), Some(c), json!({"cell": i, "key": format!("{key:?}"), "route": route})));
+            }
+        }
+    }
+}
+
+// ------------------------------------------------------------------------------------------------
+
+fn main() {
+    let mut id = String::new();
+    let mut tier = std::env::var("VERIF_TIER").unwrap_or_else(|_| "quick".into());
+    let mut seed: u64 = std::env::var("VERIF_SEED").ok().and_then(|s| s.parse().ok()).unwrap_or(1);
+    let mut verif_dir = PathBuf::from("/verif");
+    let mut out_dir: Option<PathBuf> = None;
+    let mut replay: Option<PathBuf> = None;
+    let mut leg: Option<String> = None;
+    let scale: f64 = std::env::var("VERIF_SCALE").ok().and_then(|s| s.parse().ok()).unwrap_or(1.0);
+    let mut it = std::env::args().skip(1);
+    while let Some(x) = it.next() {
+        match x.as_str() {
+            "--tier" => tier = it.next().unwrap(),
+            "--seed" => seed = it.next().unwrap().parse().unwrap(),
+            "--verif-dir" => verif_dir = PathBuf::from(it.next().unwrap()),
+            "--out-dir" => out_dir = Some(PathBuf::from(it.next().unwrap())),
+            "--replay" => replay = Some(PathBuf::from(it.next().unwrap())),
+            "--leg" => leg = Some(it.next().unwrap()),
+            s if id.is_empty() => id = s.to_string(),
+            s => {
+                eprintln!("unknown argument {s}");
+                std::process::exit(2);
+            }
+        }
+    }
+    if id != "C14" {
+        eprintln!("usage: vcustom C14 [--tier quick|thorough] [--seed N] [--verif-dir DIR] [--out-dir DIR] [--replay FILE] [--leg NAME]");
+        std::process::exit(2);
+    }
+    let out = out_dir.unwrap_or_else(|| verif_dir.clone());
+    let known = KnownFindings::load(&verif_dir.join("known_findings.json"));
+    let mut rep = Report::new("C14", &tier, seed);
+    if let Some(path) = replay {
+        let txt = std::fs::read_to_string(&path).expect("replay file");
+        let v: serde_json::Value = serde_json::from_str(&txt).expect("json");
+        let case = Case::from_json(&v["case"]);
+        one_c14("C14", &case, &mut rep);
+        for v in &rep.violations {
+            println!("VIOLATION property=C14 replay={}", path.display());
+            println!("  [{}] {}", v.monitor, v.what);
+        }
+        for (k, v) in &rep.maxima {
+            println!("  max {k} = {v:e}");
+        }
+        std::process::exit(if rep.violations.is_empty() { 0 } else { 1 });
+    }
+    rep.rule = "cases = seeded inputs of the conditioned families x dimensionality x periodic flag, one third with masks; a downstream crate's own CellIntegral (moments of degree <= 2 from the signed tetrahedra) and FaceIntegral (plane residuals and signed areas of the base triangles) are evaluated through compute_cell_integrals / compute_face_integrals, without and (3D) with stored faces, and compared with the brute-force reference polytope; distinct = distinct hash of (input, mask); non-trivial = at least one constructed cell".into();
+    rep.assumptions = vec![
+        "'every downstream implementation' is witnessed by the implementations in this crate; integrands up to degree 2".into(),
+        "tolerance model of DESIGN 5.3; reference clipper vcore::refcell".into(),
+        "the extra-data clause is decided by the separate crate harness/vdata (compile probe + alignment monitor)".into(),
+    ];
+    let thorough = tier == "thorough";
+    let ncases = ((if thorough { 20000. } else { 500. }) * scale) as u64;
+    let szs: Vec<usize> = if thorough { vec![1, 2, 3, 4, 5, 8, 13, 27, 50, 100, 200, 400] } else { vec![1, 2, 3, 4, 5, 8, 13, 27, 50, 100] };
+    let next = AtomicU64::new(0);
+    let merged: Mutex<Vec<Report>> = Mutex::new(vec![]);
+    // silence the default panic message flood: one line per panic
+    std::panic::set_hook(Box::new(|info| {
+        eprintln!("[vcustom] library panic: {}", info);
+    }));
+    let nw = std::thread::available_parallelism().map(|n| n.get()).unwrap_or(4);
+    std::thread::scope(|sc| {
+        for _ in 0..nw {
+            sc.spawn(|| {
+                let mut local = Report::new("C14", &tier, seed);
+                loop {
+                    let k = next.fetch_add(1, Ordering::Relaxed);
+                    if k >= ncases {
+                        break;
+                    }
+                    let o = GenOpts {
+                        sizes: &szs,
+                        ..Default::default()
+                    };
+                    let mut c = gen_case("C14", &tier, seed, k, &o);
+                    if k % 3 == 2 && c.n() > 0 {
+                        let mut r = Rng::stream("C14mask", &[seed, k]);
+                        c.mask = Some(gen_mask(c.n(), &mut r));
+                    }
+                    one_c14("C14", &c, &mut local);
+                }
+                merged.lock().unwrap().push(local);
+            });
+        }
+    });
+    for l in merged.into_inner().unwrap() {
+        rep.merge(l);
+    }
+    let code = match leg {
+        Some(l) => rep.finish_leg(&out, &known, &l),
+        None => rep.finish(&out, &known),
+    };
+    std::process::exit(code);
+}
